@@ -281,6 +281,31 @@ var zzTemplates = []struct {
 	{"POST /i HTTP/1.0\r\nHost: h\r\nConnection: keep-alive\r\nContent-Length: 1\r\n\r\nx", "POST", "/i", "x", false},
 }
 
+// zzBodyOffsets: where the body bytes of template t sit in its wire text.
+func zzBodyOffsets(t int) []int {
+	w := zzTemplates[t].wire
+	he := 0
+	for i := 0; i+3 < len(w); i++ {
+		if w[i:i+4] == "\r\n\r\n" {
+			he = i + 4
+			break
+		}
+	}
+	switch t {
+	case 1:
+		return []int{he, he + 1, he + 2, he + 3, he + 4}
+	case 2:
+		return []int{he + 3, he + 4, he + 5, he + 11, he + 12}
+	case 4:
+		return []int{he, he + 1}
+	case 7:
+		return []int{he + 3, he + 4}
+	case 8:
+		return []int{he}
+	}
+	return nil
+}
+
 // ZZ_C01_H4: k pipelined requests chosen from the template set, delivered under a symbolic
 // fragment size, are handled once each, in order, each handler seeing exactly its own method,
 // target and body; exactly one response per request is written, in the same order.
@@ -288,10 +313,19 @@ func ZZ_C01_H4() {
 	k := zz.Range("k", 1, zz.Param("K", 2))
 	var wire []byte
 	var want []int
+	var bodies [][]byte
 	for i := 0; i < k; i++ {
 		t := zz.Choose("tmpl", len(zzTemplates))
 		want = append(want, t)
+		// the body bytes of the template are replaced by symbolic bytes
+		at := len(wire)
 		wire = append(wire, zzTemplates[t].wire...)
+		offs := zzBodyOffsets(t)
+		sym := zz.Bytes("body", len(offs))
+		for j, o := range offs {
+			wire[at+o] = sym[j]
+		}
+		bodies = append(bodies, sym)
 		if zzTemplates[t].closes {
 			break
 		}
@@ -325,7 +359,7 @@ func ZZ_C01_H4() {
 	ok := true
 	for i, t := range want {
 		tp := zzTemplates[t]
-		if seen[i].method != tp.method || seen[i].uri != tp.uri || seen[i].body != tp.body {
+		if seen[i].method != tp.method || seen[i].uri != tp.uri || seen[i].body != string(bodies[i]) {
 			ok = false
 		}
 	}
